@@ -672,6 +672,11 @@ func (vfs *MemFS) Remove(name string) error {
 		return &fs.PathError{Op: op, Path: name, Err: err}
 	}
 
+	if child == node(parent) {
+		// The root directory is its own parent and can't be removed.
+		return &fs.PathError{Op: op, Path: name, Err: vfs.err.InvalidArgument}
+	}
+
 	avfs.VerifBeforeLock(&parent.mu, true)
 	parent.mu.Lock()
 	defer parent.mu.Unlock()
@@ -719,6 +724,21 @@ func (vfs *MemFS) RemoveAll(path string) error {
 	}
 
 	if err != vfs.err.FileExists {
+		return &fs.PathError{Op: op, Path: path, Err: err}
+	}
+
+	if child == node(parent) {
+		// The root directory is its own parent: it is emptied but can't be removed.
+		err = vfs.removeAll(parent)
+		if err == nil {
+			avfs.VerifBeforeLock(&parent.mu, true)
+			parent.mu.Lock()
+			parent.children = nil
+			parent.mu.Unlock()
+
+			err = vfs.err.InvalidArgument
+		}
+
 		return &fs.PathError{Op: op, Path: path, Err: err}
 	}
 
